@@ -44,35 +44,14 @@ class SimAdapter(object):
         return self.module.shrink_config(case)
 
 
-def classify_exception(exc):
-    """An exception escaping from ural code is the system misbehaving (a
-    violation); one raised by the harness itself is a harness error."""
-    tb = traceback.extract_tb(exc.__traceback__)
-    frames = [f for f in tb if _REPO_URAL and os.path.abspath(f.filename).startswith(_REPO_URAL)]
-    if not frames:
-        return None
-    last = frames[-1]
-    where = "%s:%s" % (os.path.relpath(last.filename, _REPO_URAL), last.name)
-    return Violation("unexpected_exception", type(exc).__name__, core.r(str(exc)), "no exception", {"where": where})
-
-
-def run_one(adapter, case, stats):
-    try:
-        return execute_case(adapter, case, stats)
-    except HarnessError:
-        raise
-    except RecursionError:
-        raise
-    except Exception as exc:  # noqa
-        v = classify_exception(exc)
-        if v is None:
-            raise
-        v.seq = stats.seq
-        return v
+classify_exception = core.classify_exception
+run_one = core.run_one
 
 
 def run_chunk(args):
-    prop, seed, tier, start, end, chunk_timeout, double = args
+    prop, seed, tier, start, end, chunk_timeout, double = args[:7]
+    if len(args) > 7 and args[7]:
+        return run_chunk_isolated(args)
     faulthandler.dump_traceback_later(chunk_timeout, exit=True)
     try:
         adapter = SimAdapter(_SIM, _KNOWN)
@@ -132,6 +111,48 @@ def run_chunk(args):
         faulthandler.cancel_dump_traceback_later()
 
 
+def run_chunk_isolated(args):
+    """Every run in its own forked child of this (never-executing, hence clean)
+    worker: nothing a run leaves behind in process-global state of the system
+    under test can reach the next run. Only violations are collected."""
+    import pickle
+
+    prop, seed, tier, start, end, chunk_timeout = args[:6]
+    faulthandler.dump_traceback_later(chunk_timeout, exit=True)
+    found = []
+    try:
+        for run in range(start, end):
+            rfd, wfd = os.pipe()
+            pid = os.fork()
+            if pid == 0:
+                code = 0
+                try:
+                    os.close(rfd)
+                    adapter = SimAdapter(_SIM, _KNOWN)
+                    case = _SIM.generate(seed, run, tier)
+                    v = run_one(adapter, case, Stats(collect=False))
+                    payload = None if v is None else (run, case, v.record(prop), v.klass())
+                    with os.fdopen(wfd, "wb") as w:
+                        pickle.dump(payload, w)
+                except BaseException:
+                    code = 1
+                finally:
+                    os._exit(code)
+            os.close(wfd)
+            with os.fdopen(rfd, "rb") as rd:
+                data = rd.read()
+            os.waitpid(pid, 0)
+            if data:
+                payload = pickle.loads(data)
+                if payload is not None:
+                    found.append(payload)
+                    if len(found) >= 5:
+                        break
+        return {"start": start, "violations": found, "isolated": True}
+    finally:
+        faulthandler.cancel_dump_traceback_later()
+
+
 # -----------------------------------------------------------------------------
 def setup_import_path(prop, repo):
     """Import ural from the *current working tree* of the repository."""
@@ -153,6 +174,7 @@ def setup_import_path(prop, repo):
     if os.path.realpath(got) != os.path.realpath(want):
         raise HarnessError("ural imported from %s, expected %s" % (got, want))
     _REPO_URAL = os.path.realpath(want)
+    core.REPO_URAL = _REPO_URAL
     return sim, scratch
 
 
@@ -203,6 +225,90 @@ def do_replay(prop, sim, known, path, expect_exact):
 
 
 # -----------------------------------------------------------------------------
+def do_make_replay(prop, sim, known, args):
+    """Internal: execute one raw case in this fresh process; if it fails, minimise
+    it (unless told not to) and write the replay document. Exit 0 = written,
+    4 = the case does not fail on its own."""
+    with open(args.make_replay) as f:
+        raw = json.load(f)
+    adapter = SimAdapter(sim, known)
+    case = {"config": raw["config"], "events": raw["events"]}
+    v = run_one(adapter, case, Stats(collect=False))
+    if v is None:
+        return 4
+    n0 = len(case["events"])
+    small = case
+    if not args.no_minimise:
+        small = Minimiser(adapter, case, v, max_seconds=args.minimise_s).run()
+    stats = Stats(collect=False)
+    v2 = run_one(adapter, small, stats)
+    if v2 is None:
+        return 4
+    doc = {
+        "property": prop,
+        "seed": raw.get("seed"),
+        "run": raw.get("run"),
+        "tier": raw.get("tier"),
+        "config": small["config"],
+        "events": small["events"],
+        "violation": v2.record(prop),
+        "log_digest": stats.digest(),
+        "minimised_from_events": n0,
+        "repo_head": raw.get("repo_head"),
+    }
+    write_json(args.out, doc)
+    return 0
+
+
+def report_violations(prop, seed, tier, args, violations):
+    """Reproduce + minimise each candidate in a fresh process; returns
+    ([(replay path, document)], number of candidates that did not fail on their own)."""
+    reported = []
+    irreproducible = 0
+    if True:
+        violations.sort(key=lambda x: x[0])
+        by_class = {}
+        for run, case, rec, klass in violations:
+            by_class.setdefault(tuple(klass), []).append((run, case, rec))
+        os.makedirs(os.path.join(ROOT, "replays"), exist_ok=True)
+        env = dict(os.environ)
+        env["VERIF_REPO"] = args.repo
+        me = [sys.executable, "-B", os.path.join(ROOT, "run_check.py"), prop]
+        seen_records = set()
+        for klass in sorted(by_class, key=lambda k: by_class[k][0][0])[:MAX_REPORTED_CLASSES]:
+            done = False
+            for run, case, rec in by_class[klass][:6]:
+                tag = hashlib.sha256(canon(list(klass)).encode()).hexdigest()[:6]
+                path = os.path.join(ROOT, "replays", "%s-%d-%d-%s.json" % (prop, seed, run, tag))
+                raw = path + ".case"
+                write_json(raw, {"property": prop, "seed": seed, "run": run, "tier": tier, "config": case["config"], "events": case["events"], "repo_head": git_head(args.repo)})
+                attempts = [[]] if args.no_minimise else [["--minimise-s", str(args.minimise_s)], ["--no-minimise"]]
+                if args.no_minimise:
+                    attempts = [["--no-minimise"]]
+                for extra in attempts:
+                    rc = subprocess.call(me + ["--make-replay", raw, "--out", path] + extra, env=env, stdout=subprocess.DEVNULL)
+                    if rc != 0:
+                        break  # does not fail on its own in a fresh process
+                    rc2 = subprocess.call(me + ["--replay", path, "--expect-exact"], env=env, stdout=subprocess.DEVNULL)
+                    if rc2 == 1:
+                        done = True
+                        break
+                os.remove(raw)
+                if done:
+                    with open(path) as f:
+                        doc = json.load(f)
+                    key = canon(doc["violation"])
+                    if key not in seen_records:
+                        seen_records.add(key)
+                        reported.append((path, doc))
+                    break
+                irreproducible += 1
+                if os.path.exists(path):
+                    os.remove(path)
+        return reported, irreproducible
+    return reported, irreproducible
+
+
 def do_check(prop, sim, known, args):
     global _SIM, _KNOWN
     _SIM, _KNOWN = sim, known
@@ -300,47 +406,39 @@ def do_check(prop, sim, known, args):
     log_digest = overall.hexdigest()
     sim_wall = time.monotonic() - t0
 
-    # ---- violations: minimise, write replay files, verify replay ------------
-    reported = []
+    # ---- violations: reproduce + minimise in a FRESH process, verify replay ----
+    # The system under test may keep process-global state (a mutant sharing a
+    # dict between instances, a module-level cache): a violation seen in a
+    # worker that has executed thousands of runs need not reproduce from its
+    # case alone. Every candidate is therefore re-executed and minimised in a
+    # fresh interpreter, and the result is replayed in yet another one; only a
+    # case that fails there, on its own, is reported as a VIOLATION.
     violations = early + violations
+    reported, irreproducible = [], 0
+    isolated_pass = False
     if violations:
-        violations.sort(key=lambda x: x[0])
-        by_class = {}
-        for run, case, rec, klass in violations:
-            by_class.setdefault(tuple(klass), (run, case, rec))
-        adapter = SimAdapter(sim, known)
-        os.makedirs(os.path.join(ROOT, "replays"), exist_ok=True)
-        for klass in sorted(by_class, key=lambda k: by_class[k][0])[:MAX_REPORTED_CLASSES]:
-            run, case, rec = by_class[klass]
-            v = run_one(adapter, case, Stats(collect=False))
-            if v is None or (run >= 0 and v.klass() != klass):
-                raise HarnessError("violation of run %d did not reproduce in the parent process" % run)
-            n0 = len(case["events"])
-            small = case
-            if not args.no_minimise:
-                small = Minimiser(adapter, case, v, max_seconds=args.minimise_s).run()
-            stats = Stats(collect=False)
-            v2 = run_one(adapter, small, stats)
-            doc = {
-                "property": prop,
-                "seed": seed,
-                "run": run,
-                "tier": tier,
-                "config": small["config"],
-                "events": small["events"],
-                "violation": v2.record(prop),
-                "log_digest": stats.digest(),
-                "minimised_from_events": n0,
-                "repo_head": git_head(args.repo),
-            }
-            path = os.path.join(ROOT, "replays", "%s-%d-%d-%s.json" % (prop, seed, run, hashlib.sha256(canon(list(klass)).encode()).hexdigest()[:6]))
-            write_json(path, doc)
-            env = dict(os.environ)
-            env["VERIF_REPO"] = args.repo
-            rc = subprocess.call([sys.executable, "-B", os.path.join(ROOT, "run_check.py"), prop, "--replay", path, "--expect-exact"], env=env, stdout=subprocess.DEVNULL)
-            if rc != 1:
-                raise HarnessError("replay of %s in a fresh process did not reproduce the violation (rc=%d)" % (path, rc))
-            reported.append((path, doc))
+        reported, irreproducible = report_violations(prop, seed, tier, args, violations)
+        if not reported:
+            # failures exist but none stands on its own: state is carried from run
+            # to run inside the system under test. Second pass: the same runs, each
+            # in its own forked child of a clean process.
+            isolated_pass = True
+            print("note: %d failing run(s) did not fail on their own in a fresh process; re-running in isolation (one forked child per run)" % irreproducible)
+            sys.stdout.flush()
+            limit = min(total_runs, max(200, max(v[0] for v in violations) + 1), 6000)
+            iso_chunks = [(prop, seed, tier, s, min(s + 25, limit), chunk_timeout, False, True) for s in range(0, limit, 25)]
+            iso = []
+            with ProcessPoolExecutor(max_workers=workers, mp_context=ctx) as pool:
+                for out in pool.map(run_chunk, iso_chunks):
+                    iso.extend(out["violations"])
+            if iso:
+                reported, more = report_violations(prop, seed, tier, args, iso)
+                irreproducible += more
+        if not reported:
+            raise HarnessError(
+                "%d run(s) failed inside the worker processes but none fails on its own in a fresh process, "
+                "even when every run is isolated in a forked child" % irreproducible
+            )
 
     # ---- evidence --------------------------------------------------------------
     wall = time.monotonic() - t0
@@ -377,6 +475,8 @@ def do_check(prop, sim, known, args):
         "workers": workers,
         "repo_head": git_head(args.repo),
         "regression_replays_run": len([n for n in (os.listdir(fdir) if os.path.isdir(fdir) else []) if n.startswith(prop + "-")]),
+        "failed_runs_not_reproducible_in_a_fresh_process": irreproducible,
+        "isolated_second_pass": isolated_pass,
         "violations": [{"replay": p, "violation": d["violation"], "events": len(d["events"]), "minimised_from_events": d["minimised_from_events"]} for p, d in reported],
     }
     coverage.update(pre.get("coverage", {}))
@@ -451,6 +551,8 @@ def main(argv=None):
     ap.add_argument("--budget", type=float, default=float(os.environ["VERIF_BUDGET_S"]) if os.environ.get("VERIF_BUDGET_S") else None)
     ap.add_argument("--repo", default=os.environ.get("VERIF_REPO", "/repo"))
     ap.add_argument("--replay", default=None)
+    ap.add_argument("--make-replay", default=None, help=argparse.SUPPRESS)
+    ap.add_argument("--out", default=None, help=argparse.SUPPRESS)
     ap.add_argument("--expect-exact", action="store_true")
     ap.add_argument("--evidence-dir", default=None)
     ap.add_argument("--no-minimise", action="store_true")
@@ -464,7 +566,9 @@ def main(argv=None):
     try:
         sim, scratch = setup_import_path(prop, args.repo)
         known = load_known(prop, sim)
-        if args.replay:
+        if args.make_replay:
+            rc = do_make_replay(prop, sim, known, args)
+        elif args.replay:
             rc = do_replay(prop, sim, known, args.replay, args.expect_exact)
         else:
             rc = do_check(prop, sim, known, args)
